@@ -166,6 +166,7 @@ func propC04(r *Run) {
 			}
 			fes := []fe{
 				{"sasl", u != "" && pw != "" && len(u) <= 256 && len(pw) <= 256, "non-empty fields of at most 256 bytes", u, want},
+				{"name-variant", u != "" && pw != "" && len(u) < 200 && len(pw) <= 256 && utf8.ValidString(pw) && !strings.Contains(u, ":"), "a user name that differs from an existing one only by control or look-alike bytes is another name: the store's verdict for exactly that name", u, false},
 				{"sasl-realm", u != "" && pw != "" && len(u) <= 256 && len(pw) <= 256, "the realm field is not part of the user name: same verdict as without it", u, want},
 				{"ldap", pw != "", "non-empty password; the reference is asked for the name up to the first '@'", bindName, wantLDAP},
 				{"basic", !strings.Contains(u, ":") && u != "", "user without ':'", u, want},
@@ -189,6 +190,17 @@ func propC04(r *Run) {
 					}
 				} else {
 					c := &Call{Kind: "authenticate", Via: f.via, Agent: a.idx, User: f.user, PW: pw}
+					if f.via == "name-variant" {
+						v := []string{u + "\n", u + "\x00", "\x7f" + u, u[:1] + "\x01" + u[1:], u + "\r", "\u200b" + u, u + "\t", strings.ToUpper(u[:1]) + u[1:] + "\x1b"}[k%8]
+						c.User = v
+						c.Via = []string{"sasl", "api", "basic", "ldap"}[(k/2)%4]
+						refName := v
+						if c.Via == "ldap" {
+							refName, _, _ = strings.Cut(v, "@") // LDAP asks the store for the bind name up to the first '@'
+						}
+						f.expect, _, _, _, _ = d.Authenticate(refName, pw)
+						f.via = "name-variant/" + c.Via
+					}
 					if f.via == "sasl-realm" {
 						c.Via, c.Realm = "sasl", []string{"corp", "example.org", "corp@example.org"}[k%3]
 					}
